@@ -30,6 +30,6 @@ for mp in sorted(glob.glob(os.path.join(ROOT, "seeded/*/meta.json"))):
 tab3 = "\n".join(rows)
 p = os.path.join(ROOT, "DESIGN.md"); s = open(p).read()
 for tag, tab in (("STATUS", tab1), ("MUTANTS", tab2), ("SEEDED", tab3)):
-    s = re.sub(rf"<!-- GENERATED:{tag} -->.*?<!-- /GENERATED:{tag} -->", f"<!-- GENERATED:{tag} -->\n{tab}\n<!-- /GENERATED:{tag} -->", s, flags=re.S)
+    s = re.sub(rf"<!-- GENERATED:{tag} -->.*?<!-- /GENERATED:{tag} -->", lambda m: f"<!-- GENERATED:{tag} -->\n{tab}\n<!-- /GENERATED:{tag} -->", s, flags=re.S)
 open(p, "w").write(s)
 print("tables written")
